@@ -1299,6 +1299,11 @@ impl Scenario for PlainSc {
                         .collect();
                     match st.put_batch(blobs.clone()) {
                         Ok(ids) if ids.len() == n => {
+                            if let Some(id) = ids.iter().find(|id| model.contains_key(id)) {
+                                cx.ev(format!("put_batch -> ids {:?}: id {} names a LIVE record; history ends here", ids, id));
+                                v.add(PRIO_CLEAN, "live_record_overwritten", "PlainBlobStore.put_batch", format!("put_batch handed out id {} which still names a live record ({} bytes): that record is lost", id, model[id].len()));
+                                break;
+                            }
                             for (id, data) in ids.iter().zip(blobs.iter()) {
                                 model.insert(*id, data.clone());
                                 states.push(model.clone());
@@ -1360,6 +1365,12 @@ impl Scenario for PlainSc {
                     data.truncate(len);
                     match st.put(&data) {
                         Ok(id) => {
+                            // an id that still names a live record: that record has just been replaced
+                            if let Some(old) = model.get(&id) {
+                                cx.ev(format!("put {} bytes -> id {} which names a LIVE record of {} bytes; history ends here", data.len(), id, old.len()));
+                                v.add(PRIO_CLEAN, "live_record_overwritten", "PlainBlobStore.put", format!("put handed out id {} which still names a live record ({} bytes): that record is lost", id, old.len()));
+                                break;
+                            }
                             model.insert(id, data.clone());
                             states.push(model.clone());
                             trans.push((states.len() - 1, id, true));
